@@ -326,6 +326,150 @@ def _base_setup(reg, ex):
 
 
 # ---------------------------------------------------------------------------
+# mappings with lazily decided optional entries
+
+
+class _Thunk:
+    def __init__(self, fn):
+        self.fn = fn
+
+
+@stubclass
+class LazyMap:
+    """A dict handed to the code under contract (WSGI environ, ASGI header dict, ASGI scope) whose OPTIONAL entries have a symbolic
+    presence bit (and, with `later`, a value chosen on first read).  The exploration forks on an entry only when the subject -- or the
+    specification -- asks for it, so every optional input varies in every harness at no cost where nothing reads it, and a change that
+    starts reading one is explored with the entry present and absent.  Keys are literals (a symbolic key stops the run as unreached)."""
+
+    def __init__(self, v):
+        self.v = v
+        self.pres, self.vals, self.known = {}, {}, {}
+
+    def put(self, k, value, present=True):
+        self.pres[k], self.vals[k] = present, value
+        return self
+
+    def later(self, k, fn, present=True):
+        return self.put(k, _Thunk(fn), present)
+
+    def _key(self, k):
+        if isinstance(k, SStr):
+            raise Unreached('lookup in an environ / header / scope mapping with a symbolic key')
+        return k
+
+    def has(self, k):
+        k = self._key(k)
+        if k not in self.pres:
+            return False
+        if k not in self.known:
+            p = self.pres[k]
+            self.known[k] = True if p is True else bool(p)  # forks here, once per path
+        return self.known[k]
+
+    def val(self, k):
+        x = self.vals[k]
+        if isinstance(x, _Thunk):
+            x = self.vals[k] = x.fn()
+        return x
+
+    def extended(self, extra):
+        """A second mapping with the same (shared, lazily decided) entries plus the always-present entries of `extra`."""
+        m = LazyMap(self.v)
+        m.pres, m.vals, m.known = dict(self.pres), dict(self.vals), self.known
+        for k, val in extra.items():
+            m.put(k, val)
+        return m
+
+    def clobber(self, mk):
+        """Every entry gets a new value behind the request's back (presence unchanged)."""
+        for k in list(self.vals):
+            self.vals[k] = mk(k)
+
+    # --- as the subject sees it
+    def __pyvc_contains__(self, k):
+        return self.has(k)
+
+    def __pyvc_getitem__(self, k):
+        if self.has(k):
+            return self.val(k)
+        throw(self.v, KeyError, k)
+
+    def __pyvc_truth__(self):
+        raise Unreached('truth value of an environ / header / scope mapping')
+
+    def get(self, k, default=None):
+        return self.val(k) if self.has(k) else default
+
+    # --- as the specification sees it (plain python)
+    __contains__ = has
+
+    def __getitem__(self, k):
+        if self.has(k):
+            return self.val(k)
+        raise KeyError(k)
+
+
+class _SharedKnown:
+    """The `known` decisions of a second view of the same mapping under translated keys (ASGI header dict <-> WSGI-style view)."""
+
+    def __init__(self, other, back=lambda k: k[5:].replace('_', '-').lower().encode()):
+        self.other, self.back = other, back
+
+    def __contains__(self, k):
+        return self.back(k) in self.other
+
+    def __getitem__(self, k):
+        return self.other[self.back(k)]
+
+    def __setitem__(self, k, val):
+        self.other[self.back(k)] = val
+
+
+def wsgi_style_view(v, headers):
+    """An ASGI header mapping in the vocabulary of the WSGI specifications (HTTP_* keys, latin-1 text): same entries, same presence bits."""
+    if not isinstance(headers, LazyMap):
+        return {env_key(k.decode()): as_text(b) for k, b in headers.items()}
+    view = LazyMap(v)
+    for k in headers.vals:
+        view.put(env_key(k.decode()), as_text(headers.vals[k]), headers.pres[k])
+    view.known = _SharedKnown(headers.known)
+    return view
+
+
+def lazy_map(v, fixed=(), optional=(), later=()):
+    """fixed: (key, value) always present; optional: (key, presence-name, value); later: (key, presence-name or None, thunk deciding the
+    value on first read from symbolic booleans -- never from v.choose, whose replay is positional).
+    Symbolic mode: a LazyMap.  Concrete replay: the plain dict the counter-model describes."""
+    if v.concrete:
+        d = {}
+        for k, val in fixed:
+            d[k] = val
+        for k, pname, val in optional:
+            if v.bool(pname):
+                d[k] = val
+        for k, pname, fn in later:
+            if pname is None or v.bool(pname):
+                d[k] = fn()
+        return d
+    m = LazyMap(v)
+    for k, val in fixed:
+        m.put(k, val)
+    for k, pname, val in optional:
+        m.put(k, val, v.bool(pname))
+    for k, pname, fn in later:
+        m.later(k, fn, True if pname is None else v.bool(pname))
+    return m
+
+
+def clobber_map(v, m, mk):
+    if isinstance(m, LazyMap):
+        m.clobber(mk)
+    else:
+        for k in list(m):
+            m[k] = mk(k)
+
+
+# ---------------------------------------------------------------------------
 # building requests
 
 WSGI_FIELDS = dict(
@@ -1034,18 +1178,18 @@ def host_header(v):
 
 def spec_host_port(v, env, out, what):
     """`what` is 'host' or 'port'.  RFC 3986 authority reading (host [":" port]) of the Host header, PEP 3333 SERVER_* otherwise."""
-    dflt = default_port(env)
+    dflt = lambda: default_port(env)  # consulted only by the sentences that speak of a default port
     raw = env.get('HTTP_HOST')
     # the same sentence, named apart for Host values whose port is not a number (so that a finding there suppresses only itself)
     escape_only_400(v, out, NON_NUMERIC_PORT if has_non_numeric_port(raw) else 'escape-only-400-class')
 
     def expect(clause, host, port):
-        want = host if what == 'host' else port
+        want = host if what == 'host' else (port() if callable(port) else port)
         v.check(clause, out.exc is None and out.value is not None and out.value == want)
 
     if raw is None:
         expect('without-host-header-the-server-name-and-port-are-used', env['SERVER_NAME'],
-               env['$SERVER_PORT_INT'] if '$SERVER_PORT_INT' in env else digits_value(env['SERVER_PORT']))
+               lambda: env['$SERVER_PORT_INT'] if '$SERVER_PORT_INT' in env else digits_value(env['SERVER_PORT']))
         v.cover('no-host-header')
         return
     if raw.startswith('['):
@@ -1288,6 +1432,18 @@ def bounded_split(v, s, sep, max_pieces):
     return out + [rest]
 
 
+def at_most_pieces(s, sep, max_pieces):
+    """s.split(sep) has at most max_pieces pieces -- stated without forking (a regular constraint), so that it can be assumed of a header
+    value whether or not anything reads the header on this path."""
+    if not isinstance(s, SStr):
+        return len(s.split(sep)) <= max_pieces
+    c = ord(_text(sep))
+    not_sep = z3.Star(z3.Union(*([z3.Range(z3.StringVal(chr(0)), z3.StringVal(chr(c - 1)))] if c > 0 else []) +
+                               [z3.Range(z3.StringVal(chr(c + 1)), z3.StringVal(chr(0x2FFFF)))]))
+    more = z3.Concat(z3.Re(_s(sep)), not_sep)
+    return mk_bool(z3.InRe(s.t, z3.Concat(not_sep, *[z3.Option(more)] * (max_pieces - 1))))
+
+
 def spec_node_host(src):
     """RFC 7239 node = nodename [":" node-port]: the nodename (brackets of an IPv6 literal removed); the port may be digits or obfuscated ("_x")."""
     if src.startswith('['):
@@ -1323,19 +1479,23 @@ ROUTE_INLINE = [PARSE_HOST, WREQ + '.get_header', WREQ + '.forwarded', WREQ + '.
 
 
 def route_env(v):
-    """Which of the route headers are present (REMOTE_ADDR is optional in the environ too)."""
+    """Which of the route headers are present (REMOTE_ADDR is optional in the environ too).  'route-source' names the header of highest
+    priority that is present; each header of LOWER priority is independently present or absent (lazily: see LazyMap)."""
     src = v.choose(4, 'route-source')  # 0 Forwarded, 1 X-Forwarded-For, 2 X-Real-IP, 3 none of them
-    env = {}
-    if src == 0:
-        env['HTTP_FORWARDED'] = v.str('HTTP_FORWARDED')
-    lower = v.choose(2, 'lower-priority-headers-too') if src < 2 else 0
-    if src == 1 or (src == 0 and lower):
-        env['HTTP_X_FORWARDED_FOR'] = v.str('HTTP_X_FORWARDED_FOR')
-    if src == 2 or (src <= 1 and lower):
-        env['HTTP_X_REAL_IP'] = v.str('HTTP_X_REAL_IP')
+    fixed, optional = [], []
+    for i, k in enumerate(ROUTE_KEYS[:3]):
+        if i == src:
+            fixed.append((k, v.str(k)))
+        elif i > src:
+            optional.append((k, 'has-' + k, v.str(k)))
     if v.choose(2, 'has-REMOTE_ADDR'):
-        env['REMOTE_ADDR'] = v.str('REMOTE_ADDR')
-    return env
+        fixed.append(('REMOTE_ADDR', v.str('REMOTE_ADDR')))
+    for k, val in fixed + [(k, val) for k, _p, val in optional]:
+        if k == 'HTTP_X_FORWARDED_FOR':
+            # bounded: at most MAX_PIECES comma-separated addresses in X-Forwarded-For (the comprehension treats every piece alike);
+            # assumed of the value wherever the header may be present, not only where the unchanged code reads it
+            v.assume(at_most_pieces(val, ',', MAX_PIECES))
+    return lazy_map(v, fixed, optional)
 
 
 def _bare_node(src):
@@ -1376,8 +1536,7 @@ def _access_route(v, retry):
     req = wsgi_req(v, env)
     remote = env.get('REMOTE_ADDR', '127.0.0.1')
     parser = route_hops(v)
-    # bounded: at most MAX_PIECES comma-separated addresses in X-Forwarded-For (the comprehension treats every piece alike)
-    xff = bounded_split(v, env['HTTP_X_FORWARDED_FOR'], ',', MAX_PIECES) if 'HTTP_X_FORWARDED_FOR' in env and 'HTTP_FORWARDED' not in env else None
+    xff = bounded_split(v, env['HTTP_X_FORWARDED_FOR'], ',', MAX_PIECES) if 'HTTP_FORWARDED' not in env and 'HTTP_X_FORWARDED_FOR' in env else None
     with patched(v, WM, '_parse_forwarded_header', parser):
         out = v.call(req)
         if retry:
@@ -1394,7 +1553,7 @@ def _access_route(v, retry):
         v.check('route-is-forwarded-then-x-forwarded-for-then-x-real-ip-then-remote-addr', same_value(list(out.value), want))
         v.check('route-ends-with-the-remote-address', len(out.value) >= 1 and out.value[-1] == remote)
         v.check('result-cached', field_of(v, req, '_cached_access_route') is out.value)
-        clobber(v, env, list(env))
+        clobber_map(v, env, lambda k: v.str(k + '_later'))
         v.set(req, '_cached_forwarded', None)
         again = v.call(req)
         v.check('second-access-returns-the-identical-list-without-recomputing', again.exc is None and again.value is out.value and len(parser.calls) == n1)
@@ -1407,18 +1566,17 @@ for _src, _nm in ((1, 'x-forwarded-for'), (2, 'x-real-ip'), (3, 'remote-addr')):
 for _n in (0, 1):
     harness(PROP, WREQ + '.access_route', name='wsgi_access_route[forwarded,hops=%d]' % _n, setup=_base_setup, inline=ROUTE_INLINE,
             fix={'route-source': 0, 'hops': _n})(lambda v: _access_route(v, False))
-# two elements: every combination of (shape of the two "for" values) x (lower-priority headers present or not), one variant each;
+# two elements: every combination of the shapes of the two "for" values, one variant each (lower-priority headers: lazily present);
 # 'two-hops' = 2 (both with port / brackets: the expensive cross product of the parse_host cases) runs in the thorough tier only
 for _part in (0, 1, 2):
-    for _low in (0, 1):
-        for _br in ((0, 1) if _part == 2 else (None,)):
-            harness(PROP, WREQ + '.access_route', name='wsgi_access_route[forwarded,hops=2%s%s%s]' % (
-                        '' if _part == 0 else ',two-hops=%d' % _part, '' if _low == 0 else ',lower=1', '' if _br is None else ',bracketed=%d' % _br),
-                    setup=_base_setup, inline=ROUTE_INLINE, **({'tier': 'thorough'} if _part == 2 else {}),
-                    fix=dict({'route-source': 0, 'hops': 2, 'two-hops': _part, 'lower-priority-headers-too': _low},
-                             **({} if _br is None else {'first-hop-bracketed': _br})))(lambda v: _access_route(v, False))
+    for _br in ((0, 1) if _part == 2 else (None,)):
+        harness(PROP, WREQ + '.access_route', name='wsgi_access_route[forwarded,hops=2%s%s]' % (
+                    '' if _part == 0 else ',two-hops=%d' % _part, '' if _br is None else ',bracketed=%d' % _br),
+                setup=_base_setup, inline=ROUTE_INLINE, **({'tier': 'thorough'} if _part == 2 else {}),
+                fix=dict({'route-source': 0, 'hops': 2, 'two-hops': _part}, **({} if _br is None else {'first-hop-bracketed': _br})))(
+            lambda v: _access_route(v, False))
 harness(PROP, WREQ + '.access_route', name='wsgi_access_route_retry', setup=_base_setup, inline=ROUTE_INLINE,
-        fix={'route-source': 0, 'lower-priority-headers-too': 0, 'has-REMOTE_ADDR': 0, 'two-hops': 0})(lambda v: _access_route(v, True))
+        fix={'route-source': 0, 'has-REMOTE_ADDR': 0, 'two-hops': 0})(lambda v: _access_route(v, True))
 
 
 @harness(PROP, WREQ + '.remote_addr', setup=_base_setup)
@@ -1537,22 +1695,27 @@ def asgi_headers(v, optional=(), always=()):
     return headers, view
 
 
+def asgi_headers_lazy(v, optional=(), always=()):
+    """As asgi_headers, but every optional header is lazily present (LazyMap): independent of each other, forking only where read."""
+    fixed = [(h.encode(), header_bytes(v, h)) for h in always]
+    opt = [(h.encode(), 'has-' + h, header_bytes(v, h)) for h in optional]
+    headers = lazy_map(v, fixed, opt)
+    return headers, wsgi_style_view(v, headers)
+
+
 def asgi_scope(v, server=True, client=True, scheme=True):
     """The connection scope as far as the accessors read it (ASGI HTTP spec: scheme, server, client, root_path are optional).
     The scheme (any of the four the ASGI spec names) and the server port (any port number) are symbolic: the exploration forks
     on them only where the code under contract reads them."""
-    scope = {'type': 'http'}
-    if scheme and v.choose(2, 'scope-has-scheme'):
-        scope['scheme'] = scheme_value(v)
-    if server:
-        k = v.choose(3, 'scope-server')  # 0 missing, 1 None, 2 (name, port)
-        if k == 1:
-            scope['server'] = None
-        elif k == 2:
-            scope['server'] = (v.str('server_name'), v.int('server_port', 0, 65535))
-    if client and v.choose(2, 'scope-has-client'):
-        scope['client'] = (v.str('client_addr'), 50000)
-    return scope
+    # every optional entry is lazily present (LazyMap): scheme, server (None or a pair), client, root_path vary in every harness that
+    # takes its scope from here, and fork the exploration only where something reads them
+    name, port, srv_none = v.str('server_name'), v.int('server_port', 0, 65535), v.bool('scope-server-is-None')
+    optional = [('scheme', 'scope-has-scheme', scheme_value(v))] if scheme else []
+    optional.append(('root_path', 'scope-has-root_path', v.str('root_path')))
+    if client:
+        optional.append(('client', 'scope-has-client', (v.str('client_addr'), 50000)))
+    later = [('server', 'scope-has-server', lambda: None if bool(srv_none) else (name, port))] if server else []
+    return lazy_map(v, [('type', 'http')], optional, later)
 
 
 def scheme_value(v):
@@ -1611,11 +1774,20 @@ def a_netloc(view, scope, is_websocket=False):
 
 def wsgi_view(view, scope, is_websocket=False):
     """The ASGI request in the vocabulary of the WSGI specifications above."""
-    env = dict(view)
+    if isinstance(scope, LazyMap):
+        # the scope is consulted only when a specification reads one of these entries (a lazily decided scope stays undecided otherwise)
+        extra = {'wsgi.url_scheme': _Thunk(lambda: a_scheme(scope, is_websocket)), 'SERVER_NAME': _Thunk(lambda: a_server(scope, is_websocket)[0]),
+                 'SERVER_PORT': _Thunk(lambda: int_text(a_server(scope, is_websocket)[1])), '$SERVER_PORT_INT': _Thunk(lambda: a_server(scope, is_websocket)[1])}
+        base = view if isinstance(view, LazyMap) else LazyMap(view_v(scope)).extended(view)
+        return base.extended(extra)
     name, port = a_server(scope, is_websocket)
-    env['wsgi.url_scheme'] = a_scheme(scope, is_websocket)
-    env['SERVER_NAME'], env['SERVER_PORT'], env['$SERVER_PORT_INT'] = name, int_text(port), port
+    env = dict(view)
+    env.update({'wsgi.url_scheme': a_scheme(scope, is_websocket), 'SERVER_NAME': name, 'SERVER_PORT': int_text(port), '$SERVER_PORT_INT': port})
     return env
+
+
+def view_v(m):
+    return m.v
 
 
 AGET = AREQ + '.get_header'
@@ -1838,18 +2010,18 @@ def _asgi_host_port(what):
         ws = ws_flag(v)
         out = v.call(asgi_req(v, headers, scope, is_websocket=ws))
         env = wsgi_view(view, scope, ws)
-        env['wsgi.url_scheme'] = Ite(a_secure(scope, ws), 'https', 'http')  # the default port follows "secure or not"
+        secure = lambda: Ite(a_secure(scope, ws), 'https', 'http')  # the default port follows "secure or not"
+        if isinstance(env, LazyMap):
+            env.put('wsgi.url_scheme', _Thunk(secure))
+        else:
+            env['wsgi.url_scheme'] = secure()
         spec_host_port(v, env, out, what)
 
     return h
 
 
-# one variant without Host header, and with one: one per shape of scope['server'] (missing / None / (name, port)): all combinations
-for _what in ('host', 'port'):
-    harness(PROP, AREQ + '.' + _what, name='asgi_%s[no-host-header]' % _what, setup=_base_setup, inline=A_INLINE, fix={'has-host': 0})(_asgi_host_port(_what))
-    for _k, _nm in enumerate(('missing', 'none', 'given')):
-        harness(PROP, AREQ + '.' + _what, name='asgi_%s[host-header,server-%s]' % (_what, _nm), setup=_base_setup, inline=A_INLINE,
-                fix={'has-host': 1, 'scope-server': _k})(_asgi_host_port(_what))
+harness(PROP, AREQ + '.host', name='asgi_host', setup=_base_setup, inline=A_INLINE)(_asgi_host_port('host'))
+harness(PROP, AREQ + '.port', name='asgi_port', setup=_base_setup, inline=A_INLINE)(_asgi_host_port('port'))
 
 
 @harness(PROP, AREQ + '.netloc', name='asgi_netloc', setup=_base_setup, inline=A_INLINE)
@@ -1899,12 +2071,10 @@ def asgi_forwarded_host(v):
 
 def _asgi_url_property(prop, field, forwarded):
     def h(v):
-        shape = v.choose(3, 'scope-shape')
-        scope = [{'type': 'http'}, {'type': 'http', 'scheme': scheme_value(v), 'server': (v.str('server_name'), v.int('server_port', 0, 65535))},
-                 {'type': 'http', 'scheme': scheme_value(v), 'server': (v.str('server_name'), v.int('server_port', 0, 65535)), 'root_path': v.str('root_path')}][shape]
+        scope = asgi_scope(v, client=False)  # scheme, server, root_path: each lazily present
         ws = ws_flag(v)
-        fwd = [[k.replace('HTTP_', '').replace('_', '-').lower() for k in ks] for ks in URL_KEYS]
-        headers, view = asgi_headers(v, optional=['host'], always=fwd[v.choose(8, 'forwarding-headers')] if forwarded else [])
+        # Host and (for the forwarded_* properties) every subset of the three forwarding headers: each header lazily present
+        headers, view = asgi_headers_lazy(v, optional=['host'] + (['forwarded', 'x-forwarded-proto', 'x-forwarded-host'] if forwarded else []))
         path, qs = v.str('path'), v.str('query_string')
         req = asgi_req(v, headers, scope, path=path, query_string=qs, is_websocket=ws)
         parser = forwarded_parser(v, max_hops=1, fields=('host', 'scheme'))
@@ -1922,8 +2092,7 @@ def _asgi_url_property(prop, field, forwarded):
             v.check('value-is-the-concatenation-of-its-parts', out.value == want)
             v.check('result-cached', field_of(v, req, field) is not None and field_of(v, req, field) == out.value)
             n1 = len(parser.calls)
-            for k in list(headers):
-                headers[k] = header_bytes(v, k.decode() + '_later')
+            clobber_map(v, headers, lambda k: header_bytes(v, k.decode() + '_later'))
             v.set(req, 'path', v.str('path_later'))
             v.set(req, 'query_string', v.str('query_string_later'))
             v.set(req, 'scope', {'type': 'http', 'scheme': 'https', 'server': ('elsewhere', 1), 'root_path': '/moved'})
@@ -1942,11 +2111,20 @@ for _prop, _field, _fwd in (('uri', '_cached_uri', False), ('prefix', '_cached_p
 
 def _asgi_access_route(v, mode):
     """mode: 'route' (values, memoisation, escape), 'retry' (failed first access), 'client-none' (scope['client'] is None)."""
-    src = v.choose(4, 'route-source')
-    names = [['forwarded'], ['x-forwarded-for'], ['x-real-ip'], []][src]
-    if src < 2 and v.choose(2, 'lower-priority-headers-too'):
-        names = names + ['x-real-ip'] + (['x-forwarded-for'] if src == 0 else [])
-    headers, view = asgi_headers(v, always=names)
+    src = v.choose(4, 'route-source')  # the header of highest priority that is present; those of lower priority: lazily present or absent
+    fixed, optional = [], []
+    for i, h in enumerate(('forwarded', 'x-forwarded-for', 'x-real-ip')):
+        if i < src:
+            continue
+        b = header_bytes(v, h)
+        if h == 'x-forwarded-for':
+            v.assume(at_most_pieces(as_text(b), ',', MAX_PIECES))  # bounded, wherever the header may be present (see route_env)
+        if i == src:
+            fixed.append((h.encode(), b))
+        else:
+            optional.append((h.encode(), 'has-' + h, b))
+    headers = lazy_map(v, fixed, optional)
+    view = wsgi_style_view(v, headers)
     scope = {'type': 'http'}
     if mode == 'client-none':
         scope['client'] = None
@@ -1973,11 +2151,10 @@ def _asgi_access_route(v, mode):
         if out.exc is not None:
             return
         # ASGI difference (source comment): an empty client address is not put into an otherwise empty route
-        want = spec_access_route(v, dict(view), hops_of(parser), client, xff, drop_empty_remote=True)
+        want = spec_access_route(v, view, hops_of(parser), client, xff, drop_empty_remote=True)
         v.check('route-is-forwarded-then-x-forwarded-for-then-x-real-ip-then-client', same_value(list(out.value), want))
         v.check('result-cached', field_of(v, req, '_cached_access_route') is out.value)
-        for k in list(headers):
-            headers[k] = header_bytes(v, k.decode() + '_later')
+        clobber_map(v, headers, lambda k: header_bytes(v, k.decode() + '_later'))
         v.set(req, '_cached_forwarded', None)
         again = v.call(req)
         v.check('second-access-returns-the-identical-list-without-recomputing', again.exc is None and again.value is out.value and len(parser.calls) == n1)
@@ -1992,15 +2169,14 @@ for _n in (0, 1):
     harness(PROP, AREQ + '.access_route', name='asgi_access_route[forwarded,hops=%d]' % _n, setup=_base_setup, inline=A_ROUTE_INLINE,
             fix={'route-source': 0, 'hops': _n})(lambda v: _asgi_access_route(v, 'route'))
 for _part in (0, 1, 2):
-    for _low in (0, 1):
-        for _br in ((0, 1) if _part == 2 else (None,)):
-            harness(PROP, AREQ + '.access_route', name='asgi_access_route[forwarded,hops=2%s%s%s]' % (
-                        '' if _part == 0 else ',two-hops=%d' % _part, '' if _low == 0 else ',lower=1', '' if _br is None else ',bracketed=%d' % _br),
-                    setup=_base_setup, inline=A_ROUTE_INLINE, **({'tier': 'thorough'} if _part == 2 else {}),
-                    fix=dict({'route-source': 0, 'hops': 2, 'two-hops': _part, 'lower-priority-headers-too': _low},
-                             **({} if _br is None else {'first-hop-bracketed': _br})))(lambda v: _asgi_access_route(v, 'route'))
+    for _br in ((0, 1) if _part == 2 else (None,)):
+        harness(PROP, AREQ + '.access_route', name='asgi_access_route[forwarded,hops=2%s%s]' % (
+                    '' if _part == 0 else ',two-hops=%d' % _part, '' if _br is None else ',bracketed=%d' % _br),
+                setup=_base_setup, inline=A_ROUTE_INLINE, **({'tier': 'thorough'} if _part == 2 else {}),
+                fix=dict({'route-source': 0, 'hops': 2, 'two-hops': _part}, **({} if _br is None else {'first-hop-bracketed': _br})))(
+            lambda v: _asgi_access_route(v, 'route'))
 harness(PROP, AREQ + '.access_route', name='asgi_access_route_retry', setup=_base_setup, inline=A_ROUTE_INLINE,
-        fix={'route-source': 0, 'lower-priority-headers-too': 0, 'scope-has-client': 0, 'two-hops': 0})(lambda v: _asgi_access_route(v, 'retry'))
+        fix={'route-source': 0, 'scope-has-client': 0, 'two-hops': 0})(lambda v: _asgi_access_route(v, 'retry'))
 harness(PROP, AREQ + '.access_route', name='asgi_access_route_client_none', setup=_base_setup, inline=A_ROUTE_INLINE,
         fix={'route-source': 3})(lambda v: _asgi_access_route(v, 'client-none'))
 
